@@ -33,7 +33,7 @@ CONSTANTS Kinds,        \* families Init enumerates: subset of {"cmdline","envir
 VARIABLES inp, out, memo, k, ev
 vars == <<inp, out, memo, k, ev>>
 
-NUL == 0      SP == 32      EQ == 61      SLASH == 47
+NUL == 0      SP == 32      EQ == 61      SLASH == 47      CR == 13      LF == 10
 
 (* ----------------------------- byte strings ----------------------------- *)
 Strs(A, n) == UNION {[1..m -> A] : m \in 0..n}
@@ -62,6 +62,17 @@ Join(ss, sep) == IF ss = <<>> THEN <<>>
 
 RECURSIVE Cat(_)
 Cat(ss) == IF ss = <<>> THEN <<>> ELSE Head(ss) \o Cat(Tail(ss))
+
+\* what a reader with universal-newline translation makes of s (CR LF and a
+\* lone CR become LF).  The kernel's records are bytes, not text lines: no
+\* answer may depend on this function.  It only NAMES the cause when the
+\* code's answer is the one the translated record would have (field `nl`).
+RECURSIVE NlFrom(_, _)
+NlFrom(s, i) == IF i > Len(s) THEN <<>>
+                ELSE IF s[i] = CR
+                     THEN <<LF>> \o NlFrom(s, IF i < Len(s) /\ s[i + 1] = LF THEN i + 2 ELSE i + 1)
+                     ELSE <<s[i]>> \o NlFrom(s, i + 1)
+NlTranslate(s) == NlFrom(s, 1)
 
 CutNul(s) == IF Has(s, NUL) THEN SubSeq(s, 1, FirstIdx(s, NUL) - 1) ELSE s
 Basename(s) == LET I == {i \in 1..Len(s) : s[i] = SLASH}
@@ -108,7 +119,8 @@ CmdAllowed(i) ==
 \* argument vector nor a title written "without NUL separators": unspecified
 CmdOpen(i) == CmdClass(i) = "cmd:open-nul-inside-unterminated"
 
-FCmd(i) == [allowed |-> CmdAllowed(i), open |-> CmdOpen(i), cls |-> CmdClass(i)]
+FCmd(i) == [allowed |-> CmdAllowed(i), open |-> CmdOpen(i), cls |-> CmdClass(i),
+            nl |-> IF Has(i.raw, CR) THEN CmdAllowed([i EXCEPT !.raw = NlTranslate(i.raw)]) ELSE {}]
 
 (* ------------------------------- environ() ------------------------------ *)
 \* NUL-terminated entries; what follows the last NUL is not an entry
@@ -152,7 +164,8 @@ EnvClass(i) ==
 \* an unterminated tail is "trailing garbage" for the reading used here, but
 \* the statement does not exclude treating it as a last entry: both allowed
 EnvAllowed(i) == {Ok(Environ(i.block)), Ok(Environ(i.block \o <<NUL>>))}
-FEnv(i) == [allowed |-> EnvAllowed(i), open |-> FALSE, cls |-> EnvClass(i)]
+FEnv(i) == [allowed |-> EnvAllowed(i), open |-> FALSE, cls |-> EnvClass(i),
+            nl |-> IF Has(i.block, CR) THEN EnvAllowed([i EXCEPT !.block = NlTranslate(i.block)]) ELSE {}]
 
 (* ------------------------- files of the sealed world -------------------- *)
 \* i.files : sequence of [path, type] ; type "x" regular+executable,
@@ -186,7 +199,7 @@ LinkAllowed(i) ==
   IF i.ph.st = "zombie" THEN {Exc("ZombieProcess")}
   ELSE IF i.ph.st = "withheld" THEN {Ok(<<>>)}
   ELSE {Ok(Clean(i, i.ph.target))}
-FLink(i) == [allowed |-> LinkAllowed(i), open |-> FALSE, cls |-> LinkClass(i)]
+FLink(i) == [allowed |-> LinkAllowed(i), open |-> FALSE, cls |-> LinkClass(i), nl |-> {}]
 
 (* --------------------------------- name() ------------------------------- *)
 \* what cmdline() gives in the process's current state
@@ -205,7 +218,9 @@ NameOf(comm, c) == IF Extends(comm, c) THEN Basename(c.val[1]) ELSE comm
 NameClass(i) ==
   LET c == CmdRes(i.cmdstate, i.raw)
       \* a two-byte UTF-8 character: the name has fewer characters than bytes
-      nonascii == IF \E a \in 1..(Len(i.comm) - 1) : i.comm[a] \in 194..223 /\ i.comm[a + 1] \in 128..191
+      \* (or the 15-byte cut fell right after the lead byte of one)
+      nonascii == IF \/ \E a \in 1..(Len(i.comm) - 1) : i.comm[a] \in 194..223 /\ i.comm[a + 1] \in 128..191
+                     \/ (i.comm # <<>> /\ Last(i.comm) \in 194..223)
                   THEN "-multibyte"
                   ELSE IF \E a \in 1..Len(i.comm) : i.comm[a] > 127 THEN "-nonascii" ELSE ""
   IN IF Len(i.comm) < 15 THEN "name:short" \o nonascii
@@ -216,7 +231,7 @@ NameClass(i) ==
      ELSE "name:15-other"
 
 FName(i) == [allowed |-> {Ok(NameOf(i.comm, CmdRes(i.cmdstate, i.raw)))},
-             open |-> FALSE, cls |-> NameClass(i)]
+             open |-> FALSE, cls |-> NameClass(i), nl |-> {}]
 
 (* ----------------------- exe(): fallback and memo ----------------------- *)
 \* cmdline()[0] may stand in for a withheld link iff it is an absolute path
